@@ -22,6 +22,21 @@ environment the model's `runProg` of the whole program vs gcc and the reference 
 the real evaluator; oracle: the whole program (`long long name = …;` in `cse_name_list` order, then
 every expression of the history) compiled by gcc and run gives the evaluator's values.
 
+Directed families (harness/c14fam.py) are part of the main stream, as "cval" cases (integers),
+as one-call value-checked histories (doubles) and behind wrappers: trees as REBUILDING mappers
+leave them — `substitute(-t, {t: -y})`: a negation directly under a negation, a negated product as
+a factor, a difference of a difference, a sum inside a sum, all unflattened (every template around
+every filler, towers of templates) — and n-ary nodes with REPEATED operands (one flat sum in which
+a term occurs with both signs and every small pair of multiplicities: `x + x - x`).
+
+A fourth stream, "ccode-bodies" (`BodiesStream`), explores mappers constructed from an EXPLICIT
+assignment list, `copy(cse_name_list=L)` (L empty: the body of a new C function with the same
+settings; L a prefix of some mapper's list; L followed by caller-provided values), in which the
+wrapped subexpressions of the earlier bodies recur; model `PV.runBodyOps`
+(lean/PV/Model/CCodeBodies.lean, theorems lean/PV/Properties/C14Bodies.lean); oracle: in every body
+names unique, assigned once, every hoisted identifier assigned earlier in THAT body's own list, and
+the body compiled by gcc computes the evaluator's values.
+
 All C programs of a run are batched into ONE translation unit (one function per program); a second
 compiler run happens only when some functions do not compile, a third/fourth one for the
 classification of failures (smallest failing subterm).
@@ -38,6 +53,7 @@ import tempfile
 
 import pymbolic.primitives as p
 
+from .. import c14fam
 from ..core import Failure, Prop, Stream
 from ..oracles import scan
 from ..sexp import (A, _NOCHILD, dumps, expr_to_sx, loads, q, sx_children, sx_replace, sx_shrinks,
@@ -740,6 +756,10 @@ def decode_op(op):
         return ("emit", op[1], sx_to_expr(loads(op[2])))
     if op[0] == "copy":
         return ("copy", op[1], None)
+    if op[0] == "copylist":
+        # copy(cse_name_list=L) on mapper i: L = the first k entries of mapper j's list followed by
+        # the (name, expression) pairs the caller computes itself
+        return ("copylist", op[1], (op[2], op[3], [(n, sx_to_expr(loads(s))) for n, s in op[4]]))
     return ("copymapped", op[1], [(n, sx_to_expr(loads(s))) for n, s in op[2]])
 
 
@@ -761,6 +781,12 @@ def replay(pl):
             pool.append(pool[i].copy())
             steps.append([A("made"), len(pool) - 1])
             trace.append(("copy", i, None, None, None, None))
+        elif what == "copylist":
+            j, k, pairs = arg
+            inherited = list(pool[j].cse_name_list[:k])
+            pool.append(pool[i].copy(cse_name_list=inherited + list(pairs)))
+            steps.append([A("made"), len(pool) - 1])
+            trace.append(("copylist", i, (j, inherited, pairs), None, None, None))
         else:
             pool.append(pool[i].copy_with_mapped_cses(list(arg)))
             steps.append([A("made"), len(pool) - 1])
@@ -779,6 +805,17 @@ def structural_failure(pl, pool, trace):
     mapped: dict = {0: []}      # expressions pre-mapped to names
     n = 1
     for what, i, arg, text, before, after in trace:
+        if what == "copylist":
+            # a mapper constructed from an explicit list: it answers for the assignments of that
+            # list only.  With an empty list it is a fresh mapper (same settings); the wrapped
+            # subexpressions behind inherited assignments are those of the list's source (an
+            # over-approximation when only a prefix is inherited: never a false alarm)
+            j, inherited, pairs = arg
+            parent[n] = j if inherited or pairs else None
+            sent[n] = list(sent[j]) if any(isinstance(v, str) for _n, v in inherited) else []
+            mapped[n] = [v for _n, v in inherited if not isinstance(v, str)] + [e for _n, e in pairs]
+            n += 1
+            continue
         if what in ("copy", "copymapped"):
             parent[n] = i
             sent[n] = list(sent[i])
@@ -929,6 +966,50 @@ def variants(mode, env, sx):
     return out
 
 
+NARY = (p.Sum, p.Product, p.BitwiseAnd, p.BitwiseOr, p.BitwiseXor, p.LogicalAnd, p.LogicalOr,
+        p.Min, p.Max)
+
+
+def _unsigned(c):
+    """the operand without a leading factor -1 (negations of one term are `repeated` too)"""
+    if isinstance(c, p.Product) and len(c.children) >= 2 and type(c.children[0]) is int \
+            and c.children[0] == -1:
+        rest = c.children[1:]
+        return rest[0] if len(rest) == 1 else p.Product(tuple(rest))
+    return c
+
+
+def has_repeated_operand(s):
+    if not isinstance(s, NARY):
+        return False
+    cs = [_unsigned(c) for c in s.children]
+    return any(cs[i] == cs[j] for i in range(len(cs)) for j in range(i))
+
+
+def distinct_variant(mode, env, s):
+    """(tree, env): every operand of the n-ary node `s` that occurs more than once (up to sign)
+    replaced by ITS OWN variable holding the operand's value — equal operands get different
+    variables, the other operands stay as they are; None if not applicable"""
+    if not has_repeated_operand(s):
+        return None
+    us = [_unsigned(c) for c in s.children]
+    env2, cs = dict(env), []
+    for j, c in enumerate(s.children):
+        if not any(us[j] == us[i] for i in range(len(us)) if i != j):
+            cs.append(c)
+            continue
+        try:
+            val = py_eval(c, env)
+        except Exception:
+            return None
+        if isinstance(val, complex) or not isinstance(val, (bool, int, float)) \
+                or (mode == "int" and not is_intlike(val)):
+            return None
+        env2[f"r{j}"] = val
+        cs.append(p.Variable(f"r{j}"))
+    return type(s)(tuple(cs)), env2
+
+
 def post_order(s, acc):
     for c in scan.children(s):
         post_order(c, acc)
@@ -952,6 +1033,9 @@ def classification_units(mode, env, e):
             continue
         try:
             units.append(single_unit(mode, env, s))
+            dv = distinct_variant(mode, env, s)
+            if dv is not None and in_range(dv[0], dv[1], mode) is not None:
+                units.append(single_unit(mode, dv[1], dv[0]))
             for _k, v, env2 in variants(mode, env, expr_to_sx(s)):
                 ve = sx_to_expr(v)
                 if in_range(ve, env2, mode) is not None:
@@ -983,6 +1067,12 @@ def classify(mode, env, e, normalized=False):
         for k, (vst, _d, vct) in vs:
             if vst == "mismatch" and not (mode == "int" and vct == "d"):
                 return f"c-value-mismatch:{kind(s)}>{k}", f"{s!r}: {detail}", s
+        # the smallest failing subterm is an n-ary node with a repeated operand, and the same node
+        # over pairwise different variables holding the operands' values is fine: the repetition
+        # is what makes it fail (`x + x - x`)
+        dv = distinct_variant(mode, env, s)
+        if dv is not None and expr_status(mode, dv[1], dv[0])[0] == "ok":
+            return f"c-value-mismatch:{kind(s)}:repeated-operand", f"{s!r}: {detail}", s
         if st == "nocompile":
             return f"c-does-not-compile:{kind(s)}", f"{s!r}: {detail}", s
         if mode == "int" and ctype == "d":
@@ -1088,14 +1178,56 @@ class CStream(Stream):
                 "env": env, "value": True, "src": "random-value",
                 "ops": [["emit", 0, dumps(expr_to_sx(e))] for e in es]}
 
-    def _cval(self, rng, e, src, small=False):
-        """`small`: variables from 0 … 2 (zeros and ones make `!`, `&&`, `||`, `?:` decide)"""
+    def _cval(self, rng, e, src, small=False, positive=False):
+        """`small`: variables from 0 … 2 (zeros and ones make `!`, `&&`, `||`, `?:` decide);
+        `positive`: variables from 1 … 9, pairwise different (no term vanishes, no two coincide)"""
         gen = IntGen(rng)
         for _attempt in range(8):
             env = {v: rng.randint(0, 2) for v in IVARS} if small else gen.env()
+            if positive:
+                env = dict(zip(IVARS, rng.sample(range(1, 10), len(IVARS))))
             if in_range(e, env, "int") is not None:
                 break
         return {"kind": "cval", "mode": "int", "env": env, "expr": dumps(expr_to_sx(e)), "src": src}
+
+    def _single(self, rng, e, mode, src):
+        """value-checked: one expression through a fresh mapper (floating point: variables away
+        from 0 and from one another)"""
+        if mode == "float":
+            vals = rng.sample([0.75, 1.25, 1.5, 2.5, 3.25, 3.5, 4.75, 5.5], len(IVARS))
+            env = {v: x * (1 if rng.random() < 0.75 else -1) for v, x in zip(IVARS, vals)}
+        else:
+            env = dict(zip(IVARS, rng.sample(range(1, 10), len(IVARS))))
+        return {"kind": "hist", "mode": mode, "reverse": rng.random() < 0.85, "pfx": "_cse",
+                "env": env, "value": True, "src": src, "ops": [["emit", 0, dumps(expr_to_sx(e))]]}
+
+    def _families(self, rng, big):
+        """the directed families of harness/c14fam.py: trees as rebuilding mappers leave them
+        (unflattened negations / products / sums: where two sign characters meet) and n-ary nodes
+        with repeated operands (one term with both signs and different multiplicities)"""
+        F = c14fam
+        pls = []
+        rebuilt = list(F.rebuilt_single())
+        rebuilt += list(F.rebuilt_double(rng, None if big else 260))
+        rebuilt += [F.rebuilt_random(rng, rng.randint(3, 5)) for _ in range(2500 if big else 60)]
+        for name, e in rebuilt:
+            pls.append(self._cval(rng, e, "rebuilt:" + name.split("(")[0], positive=True))
+        repeated = list(F.repeated_sums_small(rng, 4 if big else 3)) + list(F.repeated_operands())
+        repeated += [F.repeated_sum_random(rng) for _ in range(3000 if big else 160)]
+        for name, e in repeated:
+            pls.append(self._cval(rng, e, "repeated:" + name.split(":")[0], positive=True))
+        # the same trees as doubles, and behind wrappers (the hoisted assignment carries the text)
+        both = rebuilt + repeated
+        for name, e in rng.sample(both, 4000 if big else 170):
+            pls.append(self._single(rng, e, "float", "family-float"))
+        x = p.Variable("x")
+        for name, e in rng.sample(both, 2500 if big else 90):
+            w = CSE(e, rng.choice(PREFIXES))
+            e2 = rng.choice([lambda: p.Sum((x, p.Product((w, 2)))), lambda: c14fam.sub(x, w),
+                             lambda: p.Product((-1, w)), lambda: p.Sum((w, CSE(e, "v"))),
+                             lambda: CSE(c14fam.neg(w), "u")])()
+            pls.append(self._single(rng, e2, rng.choice(["int", "int", "float"]), "family-wrapped"))
+        return pls
 
     def cases(self, rng, tier):
         big = tier != "quick"
@@ -1117,6 +1249,7 @@ class CStream(Stream):
             pls.append(self._nocopy_hist(rng, rng.choice(["int", "float"])))
         for _ in range(120 if not big else 2000):
             pls.append(self._hist(rng, rng.choice(["int", "float"]), True))
+        pls += self._families(rng, big)
         self.prepare(pls, chunk=4000 if not big else 400)
         yield from pls
 
@@ -1819,6 +1952,165 @@ class ProgStream(Stream):
 # }}}
 
 
+# {{{ function bodies: mappers constructed from an explicit assignment list
+
+class BodiesStream(Stream):
+    """`copy(cse_name_list=L)`: the mapper of a NEW function body takes the settings of an existing
+    mapper and an assignment list chosen by the caller — empty (a new body), the first k assignments
+    of some mapper of the pool (a body continued from an earlier point), each optionally followed by
+    `(name, expression)` pairs the caller computes itself — and then sees expressions in which the
+    wrapped subexpressions of the earlier bodies recur (same wrapper nodes, fresh wrappers around
+    equal children, other prefixes, nested inside other wrappers), directly and through further
+    copies of the copy, interleaved with further calls on the older mappers.
+
+      * correspondence: texts and the complete allocator state of every mapper of the pool vs the
+        model (`PV.runBodyOps`: `CSt.copyWithList`, lean/PV/Model/CCodeBodies.lean);
+      * oracle (real code only; reference = the property's words on each body's OWN list, gcc and
+        the evaluator): in every body the names are unique, no wrapped subexpression is assigned
+        more often than it was sent, every hoisted identifier in an assignment or a returned text
+        is assigned earlier IN THAT BODY's list, and the body — declarations of the caller-provided
+        names, the assignments in order, the returned texts — compiled by gcc computes the
+        evaluator's value of every expression sent through its mapper."""
+    name = "ccode-bodies"
+
+    def __init__(self):
+        self._main = CStream()
+
+    # {{{ cases
+
+    @staticmethod
+    def _emit(i, e):
+        return ["emit", i, dumps(expr_to_sx(e))]
+
+    def _finish(self, rng, mode, gen, ops, src, tries=8):
+        """pick an environment in which every expression of the history is in range"""
+        es = [sx_to_expr(loads(op[2])) for op in ops if op[0] == "emit"]
+        es += [sx_to_expr(loads(s)) for op in ops if op[0] == "copylist" for _n, s in op[4]]
+        env = gen.env()
+        for _attempt in range(tries):
+            if all(in_range(e, env, mode) is not None for e in es):
+                break
+            env = gen.env()
+        return {"kind": "hist", "mode": mode, "reverse": rng.random() < 0.85,
+                "pfx": rng.choice(["_cse", "_cse", "_cse", "_t", "tmp"]), "env": env,
+                "value": True, "src": src, "ops": ops}
+
+    def _random(self, rng, mode):
+        gen = (IntGen if mode == "int" else FloatGen)(rng, cse=rng.choice([0.3, 0.45, 0.6]))
+        mk = gen.num if mode == "int" else gen.dbl
+
+        def expr(again):
+            """`again`: wrapped subexpressions of the earlier calls recur under fresh wrappers"""
+            e = mk(rng.randint(1, 3))
+            if again and gen.wr.children:
+                cs = [CSE(rng.choice(gen.wr.children), rng.choice(PREFIXES))
+                      for _ in range(rng.randint(1, 2))]
+                if rng.random() < 0.35:          # … nested inside another wrapper
+                    cs = [CSE(p.Sum((cs[0], rng.randint(1, 3))), rng.choice(PREFIXES))] + cs[1:]
+                e = rng.choice([p.Sum, p.Product])(tuple(cs + [e]))
+            return e
+
+        ops, n, given = [], 1, 0
+        for _ in range(rng.randint(1, 2)):
+            ops.append(self._emit(0, expr(False)))
+        for _body in range(rng.randint(1, 3)):
+            i = rng.randrange(n)
+            k = rng.random()
+            # the list: empty | a prefix | everything (what plain copy() passes)
+            take = 0 if k < 0.55 else rng.randint(1, 2) if k < 0.8 else 99
+            pairs = []
+            if rng.random() < 0.3:
+                child = rng.choice(gen.wr.children) if gen.wr.children and rng.random() < 0.7 else mk(1)
+                pairs.append([f"given{given}", dumps(expr_to_sx(child))])
+                given += 1
+            ops.append(["copylist", i, i if rng.random() < 0.85 else rng.randrange(n), take, pairs])
+            n += 1
+            for _ in range(rng.randint(1, 2)):
+                ops.append(self._emit(n - 1, expr(True)))
+            if rng.random() < 0.3:
+                ops.append(self._emit(rng.randrange(n), expr(True)))
+        return self._finish(rng, mode, gen, ops, "random")
+
+    def _shapes(self, rng, big):
+        """every node kind with wrappers in both operand positions in the first body; the second
+        body (empty list) sees the same children under fresh wrappers; a third one is copied from
+        the second; then the first mapper is used again"""
+        ws = prog_wrappers()
+        g0 = ProgGen(rng)
+        shapes = prog_shapes()
+
+        def fresh(w):
+            return CSE(w.child, rng.choice(PREFIXES))
+
+        for name, o in shapes:
+            pairs = [(u, v) for u in ws for v in ws] if big else \
+                [(rng.choice(ws), rng.choice(ws)) for _ in range(3)]
+            for u, v in pairs:
+                _n2, o2 = rng.choice(shapes)
+                _n3, o3 = rng.choice(shapes)
+                ops = [self._emit(0, o(u, v)),
+                       ["copylist", 0, 0, 0, []],
+                       self._emit(1, o2(fresh(v), fresh(u))),
+                       ["copylist", 1, 1, 0, []],
+                       self._emit(2, o3(fresh(u), CSE(p.Sum((fresh(v), 1)), "t"))),
+                       self._emit(0, o3(v, fresh(u)))]
+                yield self._finish(rng, "int", g0, ops, "shape:" + name)
+
+    def cases(self, rng, tier):
+        big = tier != "quick"
+        pls = list(self._shapes(rng, big))
+        for _ in range(260 if not big else 6000):
+            pls.append(self._random(rng, rng.choice(["int", "int", "float"])))
+        self._main.prepare(pls, chunk=4000 if not big else 1000)
+        yield from pls
+
+    # }}}
+
+    def request(self, pl):
+        ops = []
+        for op in pl["ops"]:
+            if op[0] == "copylist":
+                pairs = " ".join(f"({q(n)} {s})" for n, s in op[4])
+                ops.append(f"(copylist {op[1]} {op[2]} {op[3]} ({pairs}))")
+            elif op[0] == "emit":
+                ops.append(f"(emit {op[1]} {op[2]})")
+            elif op[0] == "copy":
+                ops.append(f"(copy {op[1]})")
+            else:
+                ops.append(f"(copymapped {op[1]} ({' '.join(f'({q(n)} {s})' for n, s in op[2])}))")
+        return f"(ccode-bodies {'true' if pl['reverse'] else 'false'} {q(pl['pfx'])} ({' '.join(ops)}))"
+
+    def run_impl(self, pl):
+        return self._main.run_impl(pl)
+
+    def oracle(self, pl):
+        return self._main.oracle(pl)
+
+    def shrink(self, pl):
+        yield from self._main.shrink(pl)
+        ops = pl["ops"]
+        for i, op in enumerate(ops):
+            if op[0] == "copylist" and (op[4] or op[3]):
+                if op[4]:
+                    yield {**pl, "ops": ops[:i] + [op[:4] + [[]]] + ops[i + 1:]}
+                if op[3]:
+                    yield {**pl, "ops": ops[:i] + [op[:3] + [0, op[4]]] + ops[i + 1:]}
+
+    def nontrivial_key(self, pl, model, impl):
+        return json.dumps(pl, sort_keys=True, default=str)
+
+    def stats(self, pl, mo, io, acc):
+        acc["src:" + pl["src"].split(":")[0]] = acc.get("src:" + pl["src"].split(":")[0], 0) + 1
+        acc["mode:" + pl["mode"]] = acc.get("mode:" + pl["mode"], 0) + 1
+        for op in pl["ops"]:
+            if op[0] == "copylist":
+                k = "empty-list" if not op[3] and not op[4] else "prefix-or-given"
+                acc[k] = acc.get(k, 0) + 1
+        acc["bodies"] = acc.get("bodies", 0) + 1 + sum(1 for op in pl["ops"] if op[0] != "emit")
+
+# }}}
+
+
 def probe():
     """replay the minimal input of every known finding on the real code"""
     st = CStream()
@@ -1875,9 +2167,10 @@ def probe_program():
 PROP = Prop(
     id="C14",
     title="Generated C code computes what the evaluator computes",
-    lean_targets=["PV.Properties.C14", "PV.Properties.C14Table", "PV.Properties.C14Prog"],
+    lean_targets=["PV.Properties.C14", "PV.Properties.C14Table", "PV.Properties.C14Prog",
+                  "PV.Properties.C14Bodies"],
     extractors=[extract],
-    streams=[CStream(), TableStream(), ProgStream()],
+    streams=[CStream(), TableStream(), ProgStream(), BodiesStream()],
     probes=[probe, probe_program],
     trusted_base=["Lean 4.33 kernel; axioms propext, Classical.choice, Quot.sound only",
                   "gcc and the machine's floating point (runtime part: values are compared per run)",
@@ -1905,7 +2198,12 @@ PROP = Prop(
                "for every expression of every history of calls on one mapper under the whole "
                "accumulated assignment list (program_value_partial, history_value_partial; "
                "hypotheses: every hoisted subexpression has a value, the environment declares no "
-               "generated name, no copy(): witnesses). Text, "
+               "generated name, no copy(): witnesses). A mapper made with copy(cse_name_list=[]) is a "
+               "fresh mapper with the parent's settings, so all single-mapper theorems hold for every "
+               "such body whatever the parent hoisted (body_names_unique, body_assigned_once, "
+               "body_assigned_before_use); for all histories with explicit lists (a prefix of some "
+               "mapper's list plus caller-provided pairs) every mapper only knows names its own list "
+               "assigns (bodies_assigned_before_use; copyList_eq_table_current ties it to the source). Text, "
                "allocator state, the C reading (vs gcc) and the reference meaning (vs the real "
                "evaluator) are tied by correspondence; floating point and gcc itself are runtime "
                "checks. The hand-written model is proved equal (ccodeE_eq_table_current, "
